@@ -285,8 +285,10 @@ impl GarbleProgram {
         let Some(param) = self.main.params.get(arg_index) else {
             return Err(EvalError::InvalidArgIndex(arg_index));
         };
-        let literal = Literal::parse(&self.program, &param.ty, literal)
-            .map_err(EvalError::LiteralParseError)?;
+        // (array sizes that are given by constants are known by now)
+        let ty = resolve_const_type(&param.ty, &self.const_sizes);
+        let literal =
+            Literal::parse(&self.program, &ty, literal).map_err(EvalError::LiteralParseError)?;
         Ok(GarbleArgument(literal, &self.program, &self.const_sizes))
     }
 
